@@ -168,6 +168,8 @@ def cases(rng, tier):
     cs += [(reapply(rng), "targeted_reapply") for _ in range(400 if tier == "quick" else 6000)]
     for _ in range(1000 if tier == "quick" else 12000):
         cs.append((G.assign_same_root_hist(rng, rng.choice("us"), rng.choice((1, 2, 3))).fmt(), "targeted_assign_same_root"))
+    for _ in range(12 if tier == "quick" else 60):
+        cs.append((G.bulk_hist(rng, rng.choice("us"), rng.choice((1, 2, 3))).fmt(), "targeted_bulk_references"))
     n = 6000 if tier == "quick" else 100000
     for _ in range(n):
         dom = rng.choice("us")
